@@ -364,6 +364,8 @@ def _all(ex, args, kwargs, node):
 
 def _anyall(ex, args, node, is_any):
   v = args[0]
+  if hasattr(v, 'py_any') and is_any:
+    return v.py_any(ex, node)
   if isinstance(v, VCallable) and v.what == 'genexp':
     gnode, genv = v.target
     if len(gnode.generators) != 1 or gnode.generators[0].ifs:
